@@ -64,6 +64,10 @@ def run(ck):
         adj = protocol.filler(c - 7, rng) + ["pub " + hx(rng.scalar()), "pub 0", "pub " + hx(R - 1)]
         for tag, b in (("PI on first user row", first), ("PI on last row of a full domain", last), ("adjacent PIs incl. zero", adj)):
             add(f"{tag} ({c})", b, routes=("direct", "compressed", "bytes"))
+    # beyond the parallel / fast-path thresholds of the kernels: domains 2^12 and 2^13, all three routes
+    S.cmd("pp", "giant", (1 << 13) + 8, 9)
+    for c in ([4095, 4096, 4100] if quick else [2047, 2048, 2049, 4095, 4096, 4097, 4100, 8190]):
+        add(f"size {c} (large domain)", protocol.filler(c - 4, rng), pp="giant", routes=("direct", "compressed", "bytes"))
     # gadget mixes
     for _ in range(6 if quick else 60):
         add("gadget mix", protocol.gadget_circuit(rng, size_hint=rng.randrange(0, 9)), pp="huge", routes=("direct", "compressed", "bytes"))
